@@ -150,9 +150,11 @@ Record case := mkCase { c_id : N; c_clen : N; c_fsize : N; c_kind : corruption; 
 
 (* List: one entry per regular file; names that are no IDs give the zero ID; if List filtered zero IDs they would be missing *)
 Definition listing_ok (stored strays unparsable : N) (zero_stored : bool) (listed listed_zero : N) : bool :=
-  let zeros := unparsable + (if zero_stored then 1 else 0) in
-  if list_yields_every_file then (listed =? stored + strays) && (listed_zero =? zeros)
-  else (listed =? stored + strays - zeros) && (listed_zero =? 0).
+  let foreign_zero := if list_skips_foreign_names then 0 else unparsable in
+  let foreign_listed := if list_skips_foreign_names then strays - unparsable else strays in
+  let zeros := foreign_zero + (if zero_stored then 1 else 0) in
+  if list_yields_every_file then (listed =? stored + foreign_listed) && (listed_zero =? zeros)
+  else (listed =? stored + foreign_listed - zeros) && (listed_zero =? 0).
 
 Definition case_ok (c : case) : bool :=
   match c_kind c with
